@@ -36,6 +36,29 @@ theorem sorted_desc (icdf : ℝ → ℝ) (us : List ℝ) : (sampleMasses icdf us
     (us.map (fun u => (10:ℝ) ^ icdf u))
   exact this.imp (fun h => by simpa using h)
 
+/-- C20: sorting only reorders — with and without `sort` the same masses are returned, each as often
+    (so every distributional clause holds for the sorted output iff it holds for the unsorted one) -/
+theorem sort_only_reorders (icdf : ℝ → ℝ) (us : List ℝ) :
+    (sampleMasses icdf us true).Perm (sampleMasses icdf us false) := by
+  unfold sampleMasses
+  simp only [if_true, Bool.false_eq_true, if_false]
+  exact (List.reverse_perm _).trans ((List.mergeSort_perm _ _).trans (List.reverse_perm _).symm)
+
+/-- C20: the returned masses are exactly the images of the draws — nothing is dropped, clipped or
+    duplicated, whether or not sorting is requested -/
+theorem masses_are_the_images_of_the_draws (icdf : ℝ → ℝ) (us : List ℝ) (sort : Bool) :
+    (sampleMasses icdf us sort).Perm (us.map (fun u => (10:ℝ) ^ icdf u)) := by
+  cases sort
+  · unfold sampleMasses; simp only [Bool.false_eq_true, if_false]; exact List.reverse_perm _
+  · exact (sort_only_reorders icdf us).trans (by
+      unfold sampleMasses; simp only [Bool.false_eq_true, if_false]; exact List.reverse_perm _)
+
+/-- C20: without sorting, the k-th returned mass is the image of the k-th draw from the end
+    (`m[::-1]`), so a given stream reproduces the same array position by position -/
+theorem unsorted_is_reversed_draw_order (icdf : ℝ → ℝ) (us : List ℝ) :
+    sampleMasses icdf us false = (us.reverse).map (fun u => (10:ℝ) ^ icdf u) := by
+  unfold sampleMasses; simp [List.map_reverse]
+
 /-- C20: every mass is at or above the minimum when the inverse survival function stays at or above log₁₀ m_min on [0,1] -/
 theorem above_minimum (icdf : ℝ → ℝ) (us : List ℝ) (sort : Bool) (lmin : ℝ)
     (hu : ∀ u ∈ us, lmin ≤ icdf u) : ∀ m ∈ sampleMasses icdf us sort, (10:ℝ) ^ lmin ≤ m := by
